@@ -17,9 +17,13 @@ LINE = 6000
 NLINES = 5
 
 
-def make_file(d):
+def make_file(d, cr=False):
     lines = [("%d" % i) * LINE for i in range(NLINES)]
-    p = os.path.join(d, "big.txt")
+    if cr:
+        # carriage returns inside the lines and a CRLF ending on one of them: "\n" is the only line delimiter
+        lines = [l[:7] + "\r" + l[8:3000] + "\r" + l[3001:] for l in lines]
+        lines[1] = lines[1][:-1] + "\r"
+    p = os.path.join(d, "big-cr.txt" if cr else "big.txt")
     with open(p, "w") as f:
         for l in lines:
             f.write(l + "\n")
@@ -28,7 +32,8 @@ def make_file(d):
 
 
 class Cfg:
-    def __init__(self, name, variant, pre, reads, grandchild=None):
+    def __init__(self, name, variant, pre, reads, grandchild=None, cr=False):
+        self.cr = cr                    # the file contains carriage returns
         self.name = name
         self.variant = variant          # text | mmap | map
         self.pre = list(pre)            # reads of the root before the fork (unscheduled)
@@ -40,7 +45,7 @@ class Cfg:
 
     def describe(self):
         return {"name": self.name, "variant": self.variant, "pre": self.pre,
-                "reads": {str(k): v for k, v in self.reads.items()}, "grandchild": self.grandchild}
+                "reads": {str(k): v for k, v in self.reads.items()}, "grandchild": self.grandchild, "cr": self.cr}
 
 
 def make_scenario(cfg, path, offs):
@@ -120,7 +125,29 @@ def _digest(line):
         return line
     if not isinstance(line, str):
         return ("?", repr(line)[:40])
-    return (line[:1], len(line), line == line[:1] * len(line))
+    import hashlib
+    return (line[:1], len(line), hashlib.md5(line.encode("utf-8", "surrogatepass")).hexdigest()[:10])
+
+
+EXP = {}        # cr flag -> expected digest per line (set by prepare_files)
+
+
+def prepare_files(d):
+    from windpyutils.files import MapAccessFile
+    files = {}
+    for cr in (False, True):
+        path, lines, offs = make_file(d, cr)
+        EXP[cr] = [_digest(l) for l in lines]
+        # MapAccessFile returns "the line at the offset" as its own (text-mode) handle reads it; the property compares
+        # with what a SINGLE process gets, so that is the reference for the map variant
+        with MapAccessFile(path, {"k%d" % i: o for i, o in enumerate(offs)}) as mf:
+            EXP[("map", cr)] = [_digest(mf["k%d" % i].rstrip("\n")) for i in range(len(offs))]
+        files[cr] = (path, offs)
+    return files
+
+
+def expected(cfg, i):
+    return EXP[("map", cfg.cr)][i] if cfg.variant == "map" else EXP[cfg.cr][i]
 
 
 def judge(cfg, r):
@@ -132,18 +159,18 @@ def judge(cfg, r):
                 for k in cfg.pre:
                     exp_pre += [0, 1] if k == "iter2" else [k]
                 for k, dg in zip(exp_pre, item[1]):
-                    if dg != (str(k), LINE, True):
+                    if dg != expected(cfg, k):
                         v.append(("C18", {"variant": cfg.variant, "kind": "wrong-line", "where": "before-fork"},
                                   "%s: unscheduled read before fork returned %r" % (cfg.name, dg), {}))
                 continue
             i, dg = item
             if i in ("open", "reenter"):
                 continue
-            if dg != (str(i), LINE, True):
+            if dg != expected(cfg, i):
                 who = "parent" if idx == 0 else "child"
                 v.append(("C18", {"variant": cfg.variant, "kind": "wrong-line", "where": who},
                           "%s: process %d read line %d and got (first char, length, uniform)=%r, expected %r" % (
-                              cfg.name, idx, i, dg, (str(i), LINE, True)), {}))
+                              cfg.name, idx, i, dg, expected(cfg, i)), {}))
                 break
     missing = set(cfg.reads) - set(r.value)
     if missing:
@@ -171,6 +198,8 @@ def plan_for(tier):
         # a child that never touches the file forks a grandchild that does (parent reads concurrently)
         plan.append((Cfg("%s/idle-child-grandchild" % variant, variant, [2], {0: [0, 3], 1: [], 2: [4, 1]}, grandchild=(1, 2, 0)),
                      None if not q else 3))
+        # a file with carriage returns inside its lines (and one CRLF ending)
+        plan.append((Cfg("%s/2p-carriage-returns" % variant, variant, [0], {0: [2, 1], 1: [1, 3]}, cr=True), None if not q else 3))
         # parent + 2 children
         plan.append((Cfg("%s/3p" % variant, variant, [2], {0: [0, 3], 1: [4, 1], 2: [1, 4]}), 2 if q else 3))
         if not q:
@@ -192,13 +221,14 @@ def run(report, tier):
     d = "/dev/shm/verif-c18-%d" % os.getpid()
     os.makedirs(d, exist_ok=True)
     try:
-        path, lines, offs = make_file(d)
+        files = prepare_files(d)
         report.rule("one evaluation = one complete interleaving of the file operations (open/close/seek/readline, mmap "
                     "seek/readline) of really fork()ed processes sharing one opened line/map file object; every read of "
                     "every process is compared with the reference line; states = scheduling points, non-trivial = "
                     "interleavings with at least one switch between processes")
         for cfg, pbound in plan_for(tier):
             t0 = time.time()
+            path, offs = files[cfg.cr]
             # partition: expand the root breadth-first, then fan the pending prefixes out
             root = XExplorer(make_scenario(cfg, path, offs), lambda r: judge(cfg, r), pbound)
             pending = root.frontier(NPROC * 4)
@@ -247,11 +277,12 @@ def run(report, tier):
 def replay(rec):
     rp = rec["replay"]
     c = rp["config"]
-    cfg = Cfg(c["name"], c["variant"], c["pre"], c["reads"], tuple(c["grandchild"]) if c["grandchild"] else None)
+    cfg = Cfg(c["name"], c["variant"], c["pre"], c["reads"], tuple(c["grandchild"]) if c["grandchild"] else None,
+              cr=c.get("cr", False))
     d = "/dev/shm/verif-c18-%d" % os.getpid()
     os.makedirs(d, exist_ok=True)
     try:
-        path, lines, offs = make_file(d)
+        path, offs = prepare_files(d)[cfg.cr]
         r = xproc.run_execution(make_scenario(cfg, path, offs), rp["choices"])
         print("\n".join(r.trace))
         bad = judge(cfg, r)
